@@ -5,9 +5,11 @@
    Strings are byte lists (Rust `&str` contents).  Every `rest.get(a..b) == Some(delim)` of the
    Rust code is a byte-prefix test here: a delimiter accepted by `validate` is a valid 2-byte
    UTF-8 string, so whenever the bytes are equal the slice ends lie on character boundaries
-   (which is what `get` additionally tests).  `advance!`/`split_at` panic on a non-boundary;
-   that is not modelled here (all offsets are next to delimiters or ASCII bytes; the harness
-   checks every reported span for character boundaries on the implementation side).
+   (which is what `get` additionally tests; proved: Proofs/LexerBoundary.v get2_is_window).
+   `advance!`/`split_at` and `&s[a..b]` panic on a non-boundary; the functions of this file do
+   not carry that test: the offsets they cut at are listed by Model/LexerSlices.v, and
+   Proofs/LexerBoundary.v proves every one of them a character boundary of the source (the
+   harness also checks every reported span on the implementation side).
 
    The `stack` of lexer states only ever holds [Template] or [Template; Variable|Tag]; the
    port makes that explicit: `lex_loop` is the Template state and calls `scan_inside` for the
